@@ -160,6 +160,9 @@ REGRESSION_PROGRAMS = [
     "[a for a in b if (c := a) for c in d]\n", "[i := 1 for i in range(2)]\n", "(x := y for y in z)\n[(a, b) := 1]\n",
     "l = 1\nO = 2\ndef I(): pass\nclass l: pass\n", "def f(l): return l\nlambda O: O\n",
     "x = 1\n\n\n\n", "async def f():\n  [await a async for a in b]\n  yield from c\n",
+    # identifiers whose NFKC form is a keyword (fullwidth / mathematical letters): names for tokenizer, parser and tree alike
+    "\uff49\uff46 x: pass\n", "x = \uff4e\uff4f\uff54 y\n", "\U0001d41d\U0001d41e\U0001d41f f(): pass\n",
+    "[b \uff46\uff4f\uff52 c \uff49\uff4e d]\n", "\uff50\uff41\uff53\uff53\n", "\uff32\uff45\uff54\uff55\uff52\uff4e = \uff4e\uff4f\uff4e\uff45\n",
     "if a:\n    b\n  $\nc\n", "  $", "if a:\n  ?\nb\n", "if a:\n    $\n    b\n$\n", "class C:\n  def f():\n    x\n  `\n",
 ]
 
